@@ -43,6 +43,10 @@ func c15Items() [][]*dsl.Field {
 	}
 }
 
+// c15EmbOrder selects the declaration order of the embedded message Emb (0: branches adjacent, 1: a
+// plain field between the two branches of its oneof, 2: reversed)
+var c15EmbOrder = 0
+
 func c15File(itemPerm []int, intra [2]bool, msgPerm []int) *dsl.File {
 	items := c15Items()
 	perm := &dsl.Message{Name: "Perm", Comment: " Perm is permuted"}
@@ -68,11 +72,19 @@ func c15File(itemPerm []int, intra [2]bool, msgPerm []int) *dsl.File {
 	// a third root whose name differs from Twin's only in letter case, with two fields that differ only in case
 	twin2 := &dsl.Message{Name: "TWin", Comment: " TWin differs from Twin in case only", Fields: []*dsl.Field{
 		{Name: "UserID", Num: 1, T: dsl.String, JSONTag: dsl.S("user_id_upper")}, {Name: "UserId", Num: 2, T: dsl.String, JSONTag: dsl.S("user_id_lower")}, {Name: "Nest", Num: 3, T: dsl.Msg, Ref: "Leaf"}}}
+	ea := &dsl.Field{Name: "EA", Num: 1, T: dsl.String, Oneof: "Choice"}
+	eb := &dsl.Field{Name: "EB", Num: 2, T: dsl.Int32, Oneof: "Choice"}
+	em := &dsl.Field{Name: "EMid", Num: 3, T: dsl.String}
+	emb := &dsl.Message{Name: "Emb", Oneofs: []string{"Choice"}, Fields: [][]*dsl.Field{{ea, eb, em}, {ea, em, eb}, {em, eb, ea}}[c15EmbOrder]}
+	twin.Fields = append(twin.Fields, &dsl.Field{Name: "Emb", Num: 5, T: dsl.Msg, Ref: "Emb", Embed: true, Nullable: dsl.B(false)})
+	twin2.Fields = append(twin2.Fields, &dsl.Field{Name: "Emb", Num: 5, T: dsl.Msg, Ref: "Emb", Embed: true})
 	msgs := []*dsl.Message{perm, leaf, twin, unused, twin2}
+
 	f := &dsl.File{GettersOff: true}
 	for _, mi := range msgPerm {
 		f.Messages = append(f.Messages, msgs[mi])
 	}
+	f.Messages = append(f.Messages, emb)
 	return f
 }
 
@@ -104,6 +116,7 @@ func checkC15(r *Run) int {
 		msg   []int
 		class string
 		split bool
+		emb   int
 	}
 	var vs []variant
 	for _, p := range permutations(5) {
@@ -116,12 +129,13 @@ func checkC15(r *Run) int {
 			intras = [][2]bool{{false, false}, {true, false}, {false, true}, {true, true}}
 		}
 		for _, in := range intras {
-			vs = append(vs, variant{p, in, id4, cls, false})
+			vs = append(vs, variant{p, in, id4, cls, false, 0})
 		}
 	}
 	for _, in := range [][2]bool{{true, false}, {false, true}, {true, true}} {
-		vs = append(vs, variant{id5, in, id4, "branch-order-within-block", false})
+		vs = append(vs, variant{id5, in, id4, "branch-order-within-block", false, 0})
 	}
+	vs = append(vs, variant{id5, [2]bool{}, id4, "embedded-message-field-order", false, 1}, variant{id5, [2]bool{}, id4, "embedded-message-field-order", false, 2})
 	msgPerms := permutations(5)[1:]
 	if r.Tier != "thorough" {
 		// quick: every transposition and every rotation of the five messages, plus a fifth of the rest
@@ -140,9 +154,9 @@ func checkC15(r *Run) int {
 		msgPerms = sel
 	}
 	for _, mp := range msgPerms {
-		vs = append(vs, variant{id5, [2]bool{}, mp, "message-order", false})
+		vs = append(vs, variant{id5, [2]bool{}, mp, "message-order", false, 0})
 		if r.Tier == "thorough" {
-			vs = append(vs, variant{[]int{2, 0, 1, 3, 4}, [2]bool{}, mp, "message-order+field-order", false})
+			vs = append(vs, variant{[]int{2, 0, 1, 3, 4}, [2]bool{}, mp, "message-order+field-order", false, 0})
 		}
 	}
 	// the same permutations with the non-root messages declared in an imported file of the package
@@ -159,6 +173,7 @@ func checkC15(r *Run) int {
 	var cases []*space.Case
 	for i, v := range vs {
 		for _, srt := range []bool{true, false} {
+			c15EmbOrder = v.emb
 			f := c15File(v.item, v.intra, v.msg)
 			f.Pkg, f.Name = "perm", "perm.proto"
 			if v.split {
@@ -179,9 +194,13 @@ func checkC15(r *Run) int {
 			if v.split {
 				label += " split-files"
 			}
+			if v.emb != 0 {
+				label += fmt.Sprintf(" embedded-order=%d", v.emb)
+			}
 			execs = append(execs, &gExec{Label: label, FD: f.Descriptor(), Extra: f.SiblingDescriptors(), YAML: cfg.YAML(nil, nil)})
 			if !srt && !v.split {
 				fc := c15File(v.item, v.intra, v.msg)
+				c15EmbOrder = 0
 				cases = append(cases, &space.Case{Label: "C15/" + label, Family: "F6", Group: "perm", Variant: fmt.Sprint(i), Tags: map[string]string{"class": "perm", "card": v.class, "vt": "perm", "pos": "P0"}, File: fc, Cfg: cfg})
 			}
 		}
